@@ -398,6 +398,9 @@ bool ManifestParser::ParseEdge(string* err) {
     if (new_end != edge->inputs_.end()) {
       edge->inputs_.erase(new_end, edge->inputs_.end());
       edge->order_only_deps_ -= removed_order_only;
+      // The statement no longer uses its own output: without this the output
+      // would never count as a root of the graph.
+      out->RemoveOutEdge(edge);
       if (!quiet_) {
         Warning("phony target '%s' names itself as an input; "
                 "ignoring [-w phonycycle=warn]",
